@@ -16,11 +16,11 @@ const TYPES: [&str; 2] = ["a", "b"];
 const CTXS: [&str; 2] = ["c0", "c1"];
 
 #[derive(Debug, Clone, Serialize)]
-struct Pop {
-    cfg: SysConfig,
+pub struct Pop {
+    pub cfg: SysConfig,
     /// per segment: bitmask of types present (1 = a, 2 = b)
-    segs: Vec<u8>,
-    rounds: usize,
+    pub segs: Vec<u8>,
+    pub rounds: usize,
 }
 
 fn suite_q() -> Vec<String> {
@@ -123,14 +123,14 @@ fn run_restart(dir: &std::path::Path, p: &Pop) -> Result<(Built, JobResult), Str
 // ---------------------------------------------------------------------------------------------
 
 #[derive(Debug, Clone, Serialize)]
-struct Race {
-    pop: Pop,
+pub struct Race {
+    pub pop: Pop,
     /// true: compaction held, flush runs; false: flush held, compaction runs
-    compaction_held: bool,
-    park: Option<(String, usize, u64, usize)>,
+    pub compaction_held: bool,
+    pub park: Option<(String, usize, u64, usize)>,
 }
 
-struct RaceBuilt {
+pub struct RaceBuilt {
     lives: Vec<Vec<Op>>,
     /// (life, op index, stage, events stored before it)
     observes: Vec<(usize, usize, String, Vec<Ev>)>,
@@ -198,7 +198,7 @@ fn build_race(r: &Race) -> RaceBuilt {
     RaceBuilt { lives: vec![ops, life1], observes, flush_ops, compact_op }
 }
 
-fn run_race(dir: &std::path::Path, r: &Race) -> Result<(RaceBuilt, Vec<JobResult>), String> {
+pub fn run_race(dir: &std::path::Path, r: &Race) -> Result<(RaceBuilt, Vec<JobResult>), String> {
     let b = build_race(r);
     let lives: Vec<LifeSpec> = b.lives.iter().map(|ops| LifeSpec { ops: ops.clone(), snap: SnapMode::Off, fsmon: true }).collect();
     let rr = run_lifetimes(dir, &r.pop.cfg, 9, &lives, false)?;
